@@ -45,3 +45,11 @@ def k4(info):
     d = info.get("details") or {}
     return bool(d.get("slot_in_parenthesised_literal")) or bool(re.search(r'\(\s*\$"[^"]*\$\{', info.get("input", "")) and
                                                             re.search(r":\d+:\d+: \d+:\d+: ", _cli_stderr(info)))
+
+
+@signature("name_directly_in_parentheses")
+def k5(info):
+    """K5: an undefined name that is the whole content of a parenthesised expression is reported at the outermost `(`
+    (the check marks the case only when the reported position is exactly that parenthesis)"""
+    d = info.get("details") or {}
+    return bool(d.get("name_directly_in_parentheses")) or d.get("known_probe") == "K5"
